@@ -225,26 +225,33 @@ def c01_structural_sparse(kind: int, n: int, k: int, t: T12, m: int, starts: int
 NAME_LABELS = [0, 1, "0", "1", "0;1", "1;0", "TRASH", "0; 1", ""]
 
 
-def c01_names(l0: int, l1: int, l2: int, bits: B8, starts: int, finals: int, extra: int) -> bool:
+# 3-state shapes (q, sym 0=eps 1=a, t) on which subset construction merges states in different ways
+NAME_SHAPES = [
+    [(0, 1, 1), (0, 1, 2)],                          # {1,2} merged
+    [(0, 1, 1), (0, 1, 2), (1, 1, 0), (2, 1, 2)],    # {1,2} then {0,2}
+    [(0, 0, 1), (1, 1, 2), (2, 1, 0)],               # eps closure {0,1}
+    [(0, 1, 1), (1, 1, 2), (0, 1, 2), (2, 1, 1)],    # {1,2} -> {1,2}
+    [(0, 1, 0), (0, 1, 1), (1, 1, 2)],               # {0,1} -> {0,1,2}
+    [(0, 0, 2), (2, 1, 1), (1, 1, 1), (0, 1, 0)],    # eps to 2; {0,2} and {0,1,2}
+    [(0, 1, 2), (2, 1, 1)],                          # no merge at all (names only)
+    [(0, 1, 1), (1, 0, 2), (2, 1, 0), (0, 1, 2)],    # eps inside
+]
+
+
+def c01_names(l0: int, l1: int, l2: int, shape: int, starts: int, finals: int) -> bool:
     """
-    pre: 0 <= l0 < 9 and 0 <= l1 < 9 and 0 <= l2 < 9 and l0 != l1 and l1 != l2 and l0 != l2
-    pre: 0 <= starts < 8 and 0 <= finals < 8 and 0 <= extra < 4
     pre: pinned(l0=l0, l1=l1, starts=starts)
+    pre: 0 <= l0 < 9 and 0 <= l1 < 9 and 0 <= l2 < 9 and l0 != l1 and l1 != l2 and l0 != l2
+    pre: 0 <= shape < 8 and 1 <= starts < 8 and 1 <= finals < 8
     post: _
     """
     i0, i1, i2 = enc.pick(l0, 9), enc.pick(l1, 9), enc.pick(l2, 9)
     labels = [NAME_LABELS[i0], NAME_LABELS[i1], NAME_LABELS[i2]]
     # State(1) == State("1") is False, but str() of both is "1": exactly the collision at stake
-    edges = enc.decode_enfa_dense(bits, 2, 1)
-    ex = enc.pick(extra, 4)
-    # third state: reached from state 0 by 'a' (bit0 of extra), goes to state 1 by 'a' (bit1)
-    if ex & 1:
-        edges.append((0, 1, 2))
-    if ex & 2:
-        edges.append((2, 1, 1))
+    edges = list(NAME_SHAPES[enc.pick(shape, 8)])
     st = enc.mask_members(starts, 3)
     fi = enc.mask_members(finals, 3)
-    return _structural("c01_names", (l0, l1, l2, bits, starts, finals, extra), 0, 3, 1, edges, st, fi,
+    return _structural("c01_names", (l0, l1, l2, shape, starts, finals), 0, 3, 1, edges, st, fi,
                        labels=labels)
 
 
@@ -274,8 +281,8 @@ def _shards_structural_sparse(tier):
 
 def _shards_names(tier):
     if tier == "quick":
-        return product_pins(l0=[0, 2, 4], l1=[1, 3, 6], starts=[1, 3])
-    return product_pins(l0=list(range(9)), l1=list(range(9)), starts=[1, 2, 3, 5])
+        return product_pins(l0=[0, 2, 4, 6, 8], l1=[1, 3, 6], starts=[1, 3])
+    return [p for p in product_pins(l0=list(range(9)), l1=list(range(9)), starts=[1, 2, 3, 5]) if p["l0"] != p["l1"]]
 
 
 FUNCS = ["EpsilonNFA.accepts", "NondeterministicFiniteAutomaton.accepts",
@@ -306,8 +313,9 @@ CONDS = [
                       "permutations"},
          FUNCS, "automaton has an edge, a start and a final state", tiers=("thorough",)),
     Cond("C01", c01_names, _shards_names,
-         {"quick": "3-state eps-NFA shapes over {a} with state labels from {0,1,'0','1','0;1','1;0','TRASH','0; 1',''} "
-                   "(pinned subsets of label pairs)",
+         {"quick": "8 three-state eps-NFA shapes over {a} (different merges in the subset construction) x state labels "
+                   "from {0,1,'0','1','0;1','1;0','TRASH','0; 1',''} (first two labels from pinned subsets, third any) x "
+                   "start masks {0},{0,1} x all non-empty final masks",
           "thorough": "all ordered label triples"},
          FUNCS, "automaton has an edge, a start and a final state"),
 ]
